@@ -26,6 +26,9 @@ func verifSimOn() bool
 //go:linkname verifSimDrawCount runtime.verifSimDrawCount
 func verifSimDrawCount() uint64
 
+//go:linkname verifDrawPCs runtime.verifDrawPCs
+func verifDrawPCs(dst []uintptr) int
+
 //go:linkname verifSchedDump runtime.verifSchedDump
 func verifSchedDump(base uint64) (n uint64, h uint64)
 
@@ -44,6 +47,10 @@ type Harness struct {
 	LeakOK bool
 	// NoBubble runs Exec directly (pure discrete-event harnesses with their own clock).
 	NoBubble bool
+	// Isolate: collect garbage twice before every run, which empties all sync.Pools, so that a
+	// run's behaviour does not depend on the runs before it (needed when the code under test or
+	// its dependencies pool objects whose reuse changes the number of PRNG draws, e.g. quic-go).
+	Isolate bool
 
 	tier string
 }
@@ -168,6 +175,7 @@ func Main(t *testing.T, hs ...*Harness) {
 		prog, _ = os.OpenFile(progPath, os.O_CREATE|os.O_WRONLY|os.O_TRUNC, 0o644)
 	}
 	seenClass := map[string]bool{}
+	h.warmUp(t)
 	for i := lo; i < hi; i++ {
 		if time.Since(t0) > budget {
 			break
@@ -242,6 +250,18 @@ func Main(t *testing.T, hs ...*Harness) {
 	}
 }
 
+// warmUp executes fixed runs before anything that is measured, recorded or replayed, so that
+// one-time initialisation inside the code under test and its dependencies (lazily built tables,
+// sync.Once, first-use maps whose hash seeds come from the simulation stream, pools) has happened
+// identically in every process: a run must behave the same whether it is the first of a process
+// (replay) or the ten-thousandth (search). `./check selftest` measures exactly this.
+func (h *Harness) warmUp(t *testing.T) {
+	for _, s := range []uint64{0x5eed0001, 0x5eed0002, 0x5eed0003} {
+		h.runOne(t, s, h.Gen(NewRand(s, StreamGen), h.tier), nil, false)
+	}
+	runtime.GC()
+}
+
 // per-run measurements kept outside the exported struct
 type runMeta struct {
 	simNs  time.Duration
@@ -261,6 +281,18 @@ func (h *Harness) runOne(t *testing.T, seed uint64, sc *Script, yl []YieldDecisi
 		}
 	}
 	rx := &runX{Run: x}
+	if h.Isolate || os.Getenv("HYSIM_GC2") != "" {
+		// empty every sync.Pool (primary and victim cache) so that what a run finds in pools does
+		// not depend on the runs executed before it in this process
+		for k := 0; k < 2; k++ {
+			runtime.GC()
+			// let finalizer / cleanup goroutines (weak caches such as crypto/tls's certificate
+			// cache) run to completion before the next step
+			for j := 0; j < 8; j++ {
+				runtime.Gosched()
+			}
+		}
+	}
 	// every PRNG the run can touch
 	mrand.Seed(int64(NewRand(seed, StreamMath).Uint64() >> 1))
 	cryptotest.SetGlobalRandom(t, NewRand(seed, StreamCrypto).Uint64())
@@ -294,6 +326,21 @@ func (h *Harness) runOne(t *testing.T, seed uint64, sc *Script, yl []YieldDecisi
 				// exited (leak) or is itself blocked (deadlock).
 				if !h.LeakOK {
 					x.Violate("goroutine-leak", "bubble ended with blocked goroutines: %s; tasks alive: %v", firstLine(s), x.Alive())
+				} else {
+					x.Probe("bubble-ended-with-blocked-goroutines")
+				}
+				if p := os.Getenv("HYSIM_LEAKLOG"); p != "" {
+					f, _ := os.OpenFile(p, os.O_CREATE|os.O_WRONLY|os.O_APPEND, 0o644)
+					buf := make([]byte, 4<<20)
+					buf = buf[:runtime.Stack(buf, true)]
+					var keep []string
+					for _, g := range strings.Split(string(buf), "\n\n") {
+						if strings.Contains(firstLine(g), "synctest bubble") {
+							keep = append(keep, g)
+						}
+					}
+					fmt.Fprintf(f, "=== seed %d tasks alive: %v\n%s\n%s\n", seed, x.Alive(), s, strings.Join(keep, "\n\n"))
+					f.Close()
 				}
 			default:
 				x.Violate("panic", "panic escaped the bubble: %s", s)
@@ -303,6 +350,23 @@ func (h *Harness) runOne(t *testing.T, seed uint64, sc *Script, yl []YieldDecisi
 	if verifSimOn() {
 		rx.schedN, rx.schedH = verifSchedDump(0)
 		rx.draws = verifSimDrawCount()
+		if p := os.Getenv("HYSIM_DRAWLOG"); p != "" {
+			pcs := make([]uintptr, 1<<15)
+			pcs = pcs[:verifDrawPCs(pcs)]
+			var sb strings.Builder
+			fmt.Fprintf(&sb, "=== seed %d draws %d\n", seed, rx.draws)
+			for _, pc := range pcs {
+				name := "?"
+				if f := runtime.FuncForPC(pc - 1); f != nil {
+					file, line := f.FileLine(pc - 1)
+					name = fmt.Sprintf("%s %s:%d", f.Name(), file[strings.LastIndexByte(file, '/')+1:], line)
+				}
+				sb.WriteString(name + "\n")
+			}
+			f, _ := os.OpenFile(p, os.O_CREATE|os.O_WRONLY|os.O_APPEND, 0o644)
+			f.WriteString(sb.String())
+			f.Close()
+		}
 	}
 	if h.Post != nil && x.Viol == nil {
 		x.Recover("harness Post", func() { h.Post(x) })
@@ -500,6 +564,7 @@ func replayMain(t *testing.T, h *Harness, path string) {
 			yl = []YieldDecision{}
 		}
 	}
+	h.warmUp(t)
 	for _, s := range rp.Preceding {
 		h.runOne(t, s, h.Gen(NewRand(s, StreamGen), rp.Tier), nil, false)
 	}
